@@ -54,3 +54,9 @@ func init() {
 		"E2 replay stage: real NodeHosts with frequent snapshots and short logs; every replica's final state is compared with the replay of the whole committed log",
 	}, Stage{Engine: "clusterrun", Mode: "replay", Race: true, BatchesQ: 8, BatchesT: 16, Par: 8, TimeoutQ: 900, TimeoutT: 5400})
 }
+
+func init() {
+	addStages("C17", "exploration", []string{
+		"E2 progress stage: fault prefix on real NodeHosts, then a fault-free period; verdicts on logical time only (ticks processed per replica via the NodeTick hook, tick based request deadlines); wall clocks are watchdogs whose firing is inconclusive",
+	}, Stage{Engine: "clusterrun", Mode: "progress", BatchesQ: 8, BatchesT: 16, Par: 8, TimeoutQ: 900, TimeoutT: 5400})
+}
